@@ -218,6 +218,13 @@ class C11(Harness):
                 f.fit(y, fh=fh_obj)
                 f.predict()
             else:
+                # the object is not fresh: it was fitted before with the other intercept setting, then re-configured
+                f.set_params(with_intercept=not cell["icpt"])
+                try:
+                    f.fit(y)
+                except ValueError:
+                    pass
+                f.set_params(with_intercept=cell["icpt"])
                 f.fit(y)
             if inp["u"]:
                 n0 = inp["n"]
